@@ -99,3 +99,56 @@ def finding_probes(rep):
 
     rep.count("finding-probes", len(FINDING_PROBES))
     vlib.correspond(rep, [line for (_, _, line) in FINDING_PROBES], oracle=oracle, trivial=netprops.trivial, tag="c05p")
+
+
+# ---- C05: player lines whose fields use the quoting in every way the format allows — a quoted field may contain spaces and
+# quoted words of its own (the quotes that WRAP the field are removed, the inner ones are the name's), fields without
+# quotes, empty quoted fields, several spaces — one player entry per line with exactly the fields written.
+
+def name_probes(rep, rnd, tier):
+    import vlib
+    from props import netprops
+    inner = [b"Mad", b"Max", b"Rockatansky", b"o", b"neil", b"[clan]", b"x y", b"", b"a", b"9", b"\xc3\xa9t\xc3\xa9", b"^1Red"]
+    lines, want = [], {}
+    k = 0
+    for fmt, head, port in ((1, _Q1, 27500), (2, _Q2, 27910), (3, _Q3, 27960)):
+        for _ in range(40 if tier == "quick" else 600):
+            n = rnd.choice([1, 1, 2, 3])
+            names, body = [], b""
+            for pi in range(n):
+                # seg0 "seg1" seg2 … inside wrapping quotes: segments at even positions are inside quotes (may hold spaces),
+                # at odd positions between an inner pair of quotes (no space, or the field would end there)
+                nseg = rnd.choice([1, 1, 3, 3, 5])
+                segs = []
+                for si in range(nseg):
+                    s = rnd.choice(inner)
+                    if si % 2 == 1:
+                        s = s.replace(b" ", b"_")
+                    segs.append(s)
+                name = b'"'.join(segs)
+                names.append(name)
+                if fmt == 1:
+                    body += b"%d %d %d %d \"%s\" \"skin\" %d %d\n" % (pi + 1, rnd.randrange(0, 100), rnd.randrange(0, 100), rnd.randrange(0, 300), name, rnd.randrange(0, 14), rnd.randrange(0, 14))
+                else:
+                    body += b"%d %d \"%s\"\n" % (rnd.randrange(0, 100), rnd.randrange(0, 300), name)
+            cid = f"qn{k}"
+            k += 1
+            lines.append(f"{cid} quake {port} {fmt} 0 " + (head + body + (b"\x00" if fmt == 1 else b"")).hex())
+            want[cid] = names
+
+    def oracle(case, impl, model, panic):
+        out = netprops.crash_oracle(case, impl, model, panic)
+        if out:
+            return out
+        res = vlib.result_of(impl)
+        names = want[case.split(" ", 1)[0]]
+        rep.count("name-probes:inner-quotes" if any(b'"' in nm for nm in names) else "name-probes:plain")
+        import re
+        m = re.search(r" P\[(.*?)\] U\[", res)
+        got = re.findall(r"\(([^()]*)\)", m.group(1)) if m else None
+        idx = 4 if case.split(" ")[3] == "1" else 2
+        if got is None or len(got) != len(names) or any(g.split(";")[idx] != "x" + nm.hex() for g, nm in zip(got, names)):
+            out.append(("player-name-quoting", f"names written {[nm.decode('utf-8', 'replace') for nm in names]}: got {res[:300]}"))
+        return out
+
+    vlib.correspond(rep, lines, oracle=oracle, trivial=netprops.trivial, tag="c05n")
